@@ -232,6 +232,12 @@ def execute(prop, run):
             if rec['outcome'] == 'died':
                 # need resolved args: re-resolve is impossible; skip ref
                 continue
+            if any((rec.get('faults') or {}).values()):
+                # an injected solver failure / interrupt fired inside this
+                # op (in a minimised sub-list it can land on another op than
+                # the one it was generated for): the fault-free pristine
+                # node is no reference for it
+                continue
             if tags.get('rng_dependent') or any(
                     ex.events_by_id[d].get('tags', {}).get('rng_dependent')
                     for d in _closure(ex, rec)):
